@@ -238,7 +238,7 @@ def gen_cases(ctx):
 
 
 # ----------------------------------------------------------------------------- implementation
-STORAGES = ["se3", "se3+pos", "se3+quat", "se3+cache", "se3+check", "quat", "quat+poses", "quat+check", "quat+views"]
+STORAGES = ["se3", "se3+pos", "se3+quat", "se3+cache", "se3+check", "quat", "quat+poses", "quat+check", "quat+views", "quat+fortran"]
 
 
 def build(rows12, storage, alias=None):
@@ -260,6 +260,10 @@ def build(rows12, storage, alias=None):
             xyz, quat = bx[:, 2:5], bq[::2]
             xyz.setflags(write=False)
             quat.setflags(write=False)
+        if storage == "quat+fortran":
+            # column-major arrays (np.vstack((x, y, z)).T, DataFrame.to_numpy()): `positions_xyz.T` is then C-contiguous, so an
+            # "ascontiguousarray" inside an alignment routine is the trajectory's own memory
+            xyz, quat = np.asfortranarray(xyz), np.asfortranarray(quat)
         t = PosePath3D(positions_xyz=xyz, orientations_quat_wxyz=quat)
         if storage == "quat+poses":
             _ = t.poses_se3
